@@ -13,6 +13,7 @@ from ..core import Interp, Hooks, Violation, close, maxerr, Digester, HarnessErr
 from .. import public, fresh
 from ..models import dense
 from .base import Scenario, solo_events, callers_of
+from . import autocalls
 
 UNSEEDED = ('cosmic_rays',)
 
@@ -234,11 +235,13 @@ class PurityScenario(Scenario):
     name = 'purity'
     prop = 'C10'
     uses_fresh = True
-    quick_runs = 900
+    quick_runs = 600
     thorough_runs = 30000
     audit_every = 1
     rule = ('each run = K in 2..4 simulated callers running pipeline fragments (optics, FFT with scratch, tilt fitting, '
-            'DFTs with repeated shapes, Zernike, array utilities, shapes, detector chain, seeded noise models, spectra) over a '
+            'DFTs with repeated shapes, Zernike, array utilities, shapes, detector chain, seeded noise models, spectra, a reused dispersive '
+            'element, in-place edits of derived objects, attribute-update paths, invalid calls) and calls generated from a type-aware '
+            'catalogue of the whole public surface (optional arguments, dtypes, layouts, containers varied) over a '
             'shared pool of caller-owned arrays/planes/spectra, interleaved by the seeded scheduler with cache-size changes and '
             'clears, global-RNG draws and reseeds, duplicate calls and (1 run in 4) read-only caller arrays; distinct = distinct '
             'history digest; non-trivial = at least one fault fired and at least one oracle comparison was made')
@@ -254,7 +257,7 @@ class PurityScenario(Scenario):
     must_hit = ['cache_eviction', 'shared_dft_shape', 'seeded_after_rng_fault', 'frozen_run', 'coldwarm_audit',
                 'fn:Plane.multiply', 'fn:propagate_dft', 'fn:propagate_fft', 'fn:Plane.fit_tilt', 'fn:dft2', 'fn:adc',
                 'fn:shot_noise', 'fn:s*', 'fn:collect_charge', 'fn:Wavefront.insert', 'path_pair', 'refused_inplace_call', 'used_vs_fresh',
-                'fn:Tilt.shift', 'one_argument_variant', 'fn:Plane.rescale', 'fn:spider']
+                'fn:Tilt.shift', 'one_argument_variant', 'fn:Plane.rescale', 'fn:spider', 'fn:call', 'fn:callm']
     probe_names = must_hit + ['frozen_write_attempt', 'frozen_benign_write']
 
     # ---------------------------------------------------------------- world + shared pool
@@ -312,6 +315,18 @@ class PurityScenario(Scenario):
         add('array', 'OFFV', recipe={'kind': 'list', 'values': [rng.randint(-2, 2), rng.randint(-2, 2)], 'dtype': 'int64'})
         add('array', 'ALPHA', recipe={'kind': 'list', 'values': [1.0 / (world['shapes']['S0'][0] + 2), 1.0 / (world['shapes']['S0'][1] + 1)]})
         add('array', 'TILTV', recipe={'kind': 'list', 'values': [1e-6, -2e-6]})
+        # the same kinds of data in other dtypes, layouts and containers (for the generated calls of autocalls.py)
+        add('array', 'IMGI', recipe={'kind': 'integers', 'shape': 'S1', 'lo': 0, 'hi': 4000, 'seed': sd(), 'dtype': rng.choice(['int32', 'int64', 'uint16'])})
+        add('array', 'IMGF', recipe={'kind': 'uniform', 'shape': 'S1', 'lo': 0.0, 'hi': 300.0, 'seed': sd(), 'dtype': 'float32'})
+        add('transposed_view', 'IMGT', a=['@IMG'])
+        add('array', 'MI', recipe={'kind': 'disk', 'shape': 'S0', 'radius': rad, 'dtype': rng.choice(['int64', 'bool', 'uint8'])})
+        add('asfortran', 'OF', a=['@O'])
+        add('array', 'MODES', recipe={'kind': 'list', 'values': [1, 2, 3, 4], 'dtype': 'int64'})
+        add('array', 'COEF', recipe={'kind': 'list', 'values': [1e-7, -2e-7, 5e-8]})
+        add('array', 'WV3', recipe={'kind': 'list', 'values': [450.0, 550.0, 650.0]})
+        add('array', 'WVQ', recipe={'kind': 'list', 'values': [455.0, 512.5, 590.0, 640.0]})
+        add('array', 'WVC', recipe={'kind': 'list', 'values': [460.0, 500.0, 540.0, 580.0]})
+        add('array', 'WVM', recipe={'kind': 'list', 'values': [500e-9, 550e-9, 600e-9]})
         add('Pupil', 'P0', k={'amplitude': '@A', 'opd': '@O', 'mask': '@M', 'pixelscale': ph['dx'], 'focal_length': ph['f']})
         add('Pupil', 'P1', k={'amplitude': '@A', 'opd': '@O', 'mask': '@MS', 'pixelscale': ph['dx'], 'focal_length': ph['f']})
         add('Pupil', 'P2', k={'amplitude': '@A', 'opd': '@O', 'pixelscale': ph['dx'], 'focal_length': ph['f']})
@@ -332,6 +347,7 @@ class PurityScenario(Scenario):
         add('Spectrum', 'SP2', a=[w2, [round(rng.uniform(0.1, 1.0), 3) for _ in w2]], k={'waveunit': unit2})
         add('Spectrum', 'SPF', a=[w1, [round(rng.uniform(1.0, 9.0), 3) for _ in w1]], k={'waveunit': 'nm', 'valueunit': 'photlam'})
         add('Blackbody', 'BB', a=[w1, 5000.0], k={'waveunit': 'nm'})
+        add('Spectrum', 'SPI', a=[[int(x) for x in w1], [rng.randint(1, 5) for _ in w1]], k={'waveunit': 'nm'})     # whole numbers: integer-typed arrays
         add('Material', 'MAT', k={'transmission': '@SP1', 'emission': 0.01, 'contam': 0.9})
         world['unit2'] = unit2
         return ev
@@ -652,6 +668,20 @@ class PurityScenario(Scenario):
             picks.append(E('Spectrum.integrate', ['@SP1']))
             return picks
 
+        def auto():
+            """Generated calls over the whole public surface (autocalls.py): any outcome is fine, purity is what is judged."""
+            out = []
+            wfp = nid('w')
+            out.append(E('Plane.multiply', ['@' + rng.choice(['P0', 'P1', 'P2']), '@W0'], id=wfp))
+            ctx = {'DU': ph['du'], 'DX': ph['dx'], 'WL': ph['wl'], 'WL2': ph['wl'] - 4e-8, 'S0': list(S0), 'wfp': '@' + wfp}
+            for _ in range(rng.randint(3, 8)):
+                fn_, a_, k_ = autocalls.autocall(rng, ctx)
+                e = E(fn_, a_, k_ or None)
+                if 'seed' in k_:
+                    e.setdefault('t', {})['seeded'] = True
+                out.append(e)
+            return out
+
         def used_vs_fresh():
             """A plane that has been used, then had its arrays updated in place by their owner, answers like a fresh plane in the same state."""
             out = []
@@ -817,7 +847,7 @@ class PurityScenario(Scenario):
             return picks
 
         table = [(optics, 3), (fft, 2), (fit, 2), (fit_inplace, 1), (path, 1.5), (refused_fit, 0.7), (used_vs_fresh, 1.2), (dft, 2), (zern, 1), (util, 1.5),
-                 (detector, 3), (spectra, 3), (dispersive, 1.2), (derived_inplace, 1.5), (misc, 1.2), (refusals, 1.2), (attr_path, 1.2)]
+                 (detector, 3), (spectra, 3), (dispersive, 1.2), (derived_inplace, 1.5), (misc, 1.2), (refusals, 1.2), (attr_path, 1.2), (auto, 4)]
         return table
 
     # ---------------------------------------------------------------- generation
@@ -896,6 +926,18 @@ class PurityScenario(Scenario):
     }
 
     def _variant(self, rng, ev, n):
+        if ev.get('fn') in ('call', 'callm') and self._dup_ok(ev):
+            # generated calls: change one numeric keyword argument
+            nums = sorted(k for k, v in ev.get('k', {}).items() if isinstance(v, (int, float)) and not isinstance(v, bool))
+            if not nums:
+                return None
+            k = rng.choice(nums)
+            d = copy.deepcopy(ev)
+            v = d['k'][k]
+            d['k'][k] = v + 1 if isinstance(v, int) else v * 1.5 + 0.25
+            d['id'] = ev['id'] + 'v%d' % n
+            d['t'] = dict({x: y for x, y in d.get('t', {}).items() if x != 'dup_of'}, fresh=True, variant=k)
+            return d
         tab = self.VARIANTS.get(ev.get('fn'))
         if not tab or ev.get('inplace') or not self._dup_ok(ev):
             return None
